@@ -239,6 +239,7 @@ func cmdAPI(args []string) *Result {
 			n = 200000
 		}
 		src.mixed(n, emit)
+		src.structured(thorough, emit)
 		fragmentProducts(2, fragments, emit)
 		exhaustive([]string{"`", "[", "]", "(", "<", "\\", "\n", "\r", "\x00", "\xff", "*", "&", "a", " ", ">", "-"}, map[bool]int{false: 3, true: 4}[thorough], emit)
 		for _, d := range deepInputs(thorough) {
